@@ -357,4 +357,211 @@ example :
     gallFin cfg s = true ∧ seenBy 1 s.log = [(0, .notFound), (1, .ok)] ∧
       compS cfg 0 (cfg.prog 0) = [0, 1, 2] := by decide
 
+/-! ## 8. The requests of the symbolizer API (`MdModel.OnceReq`)
+
+  Module identity → `module_key` → cache slot; `fill_symbol` / `walk_frame` go through the `symbols`
+  slot of the key, `get_file_path` straight to the supplier (a slot of its own file cache if it has
+  one, a plain call otherwise); several providers behind a `MultiSymbolProvider`. -/
+
+/-! ### 8.1 "per distinct module": what `module_key` distinguishes -/
+
+/-- **C12.8a** `same_key_iff`: two modules have the same key iff their code file STRINGS, code ids,
+    debug files and debug ids all agree — all four components take part. -/
+theorem same_key_iff (m₁ m₂ : ModId) :
+    moduleKey m₁ = moduleKey m₂ ↔
+      m₁.codeFile.str = m₂.codeFile.str ∧ m₁.codeId = m₂.codeId ∧
+      m₁.debugFile = m₂.debugFile ∧ m₁.debugId = m₂.debugId :=
+  moduleKey_eq_iff m₁ m₂
+
+/-- the code file takes part as the string `Module::code_file()` returns: "no code file" and "empty
+    code file" are the same, every other difference is a difference -/
+theorem code_file_same_iff (a b : CodeFile) :
+    a.str = b.str ↔ a = b ∨ ((a = .absent ∨ a = .empty) ∧ (b = .absent ∨ b = .empty)) :=
+  codeStr_eq_iff a b
+
+/-- a difference in any ONE component makes two different modules (non-vacuity of `same_key_iff`
+    in each component, incl. `None` against `Some`) -/
+example :
+    let m : ModId := ⟨.path 0 0, some 0, some 0, some 0⟩
+    moduleKey m ≠ moduleKey { m with codeFile := .path 1 0 } ∧
+    moduleKey m ≠ moduleKey { m with codeFile := .empty } ∧
+    moduleKey m ≠ moduleKey { m with codeId := some 1 } ∧
+    moduleKey m ≠ moduleKey { m with codeId := none } ∧
+    moduleKey m ≠ moduleKey { m with debugFile := some 1 } ∧
+    moduleKey m ≠ moduleKey { m with debugFile := none } ∧
+    moduleKey m ≠ moduleKey { m with debugId := some 1 } ∧
+    moduleKey m ≠ moduleKey { m with debugId := none } ∧
+    moduleKey { m with codeFile := .absent } = moduleKey { m with codeFile := .empty } := by
+  intro m; simp [m, moduleKey, CodeFile.str]
+
+/-- **C12.8b** two requests use the same `symbols` slots iff their modules have the same key: the
+    table name of a key (`RCfg.key`) is equal exactly for equal keys, and slots of different
+    (provider, key) never coincide, nor do slots of different kinds -/
+theorem same_module_same_slot (rc : RCfg) {i j : Nat} (hi : i < rc.M) (hj : j < rc.M) (p : Nat) :
+    symSlot rc p (rc.key i) = symSlot rc p (rc.key j) ↔
+      moduleKey rc.mods[i] = moduleKey rc.mods[j] := by
+  rw [← keyIx_eq_iff hi hj]
+  constructor
+  · intro h; exact (symSlot_inj (keyIx_lt hi) (keyIx_lt hj) h).2
+  · intro h; unfold RCfg.key; rw [h]
+
+theorem slots_distinct (rc : RCfg) :
+    (∀ p k p' k', k < rc.M → k' < rc.M → symSlot rc p k = symSlot rc p' k' → p = p' ∧ k = k') ∧
+    (∀ p k fk p' k' fk', k < rc.M → k' < rc.M → fk < 3 → fk' < 3 →
+      fileSlot rc p k fk = fileSlot rc p' k' fk' → p = p' ∧ k = k' ∧ fk = fk') ∧
+    (∀ t j p t' j' p', t < rc.T → t' < rc.T → p < rc.P → p' < rc.P →
+      privSlot rc t j p = privSlot rc t' j' p' → t = t' ∧ j = j' ∧ p = p') ∧
+    (∀ p k p' k' fk, symSlot rc p k ≠ fileSlot rc p' k' fk) ∧
+    (∀ p k t j p', symSlot rc p k ≠ privSlot rc t j p') ∧
+    (∀ p k fk t j p', fileSlot rc p k fk ≠ privSlot rc t j p') :=
+  ⟨fun _ _ _ _ hk hk' h => symSlot_inj hk hk' h,
+   fun _ _ _ _ _ _ hk hk' hf hf' h => fileSlot_inj hk hk' hf hf' h,
+   fun _ _ _ _ _ _ ht ht' hp hp' h => privSlot_inj ht ht' hp hp' h,
+   fun p k p' k' fk => sym_ne_file rc p k p' k' fk,
+   fun p k t j p' => sym_ne_priv rc p k t j p',
+   fun p k fk t j p' => file_ne_priv rc p k fk t j p'⟩
+
+/-! ### 8.2 "the supplier is asked at most once per distinct module" — per request kind -/
+
+/-- **C12.8c** `locate_symbols`: at most once per (provider, module key), for every mix of
+    `fill_symbol` / `walk_frame` / `get_file_path` requests and every schedule -/
+theorem locate_symbols_at_most_once (rc : RCfg) (sched : List Nat) (p k : Nat) :
+    callCount (symSlot rc p k) (rexec rc sched).log ≤ 1 :=
+  g_at_most_once (toICfg rc) sched _
+
+/-- **C12.8d** `locate_file` of a supplier WITH its own cache (`HttpSymbolSupplier`): at most one
+    request sequence per (module key, file kind) -/
+theorem locate_file_cached_at_most_once (rc : RCfg) (sched : List Nat) (p k fk : Nat) :
+    callCount (fileSlot rc p k fk) (rexec rc sched).log ≤ 1 :=
+  g_at_most_once (toICfg rc) sched _
+
+theorem rexec_allFin (rc : RCfg) (sched : List Nat) :
+    gallFin (toICfg rc) (rexec rc sched) =
+      allFin (compile (toICfg rc)) (exec (compile (toICfg rc)) sched (init (compile (toICfg rc)))) := by
+  rw [sim_allFin, rexec_abs]
+
+theorem priv_mem_allKeys {rc : RCfg} (hwf : rc.WF) {t j p fk m : Nat} (ht : t < rc.T) (hp : p < rc.P)
+    (hq : (rc.prog t)[j]? = some ⟨.file fk, m⟩) (hc : (rc.prov p).cached = false) :
+    privSlot rc t j p ∈ allKeys (compile (toICfg rc)) := by
+  apply mem_allKeys_of_prog (t := t)
+  rw [compile_prog, toICfg_prog rc ht, compS_expandFrom hwf ht 0 (rc.prog t) (by intro i _; simp)]
+  rw [List.mem_flatMap]
+  refine ⟨(⟨.file fk, m⟩, j), List.mem_zipIdx_iff_getElem?.mpr hq, ?_⟩
+  rw [List.mem_map]
+  refine ⟨p, by simp [specConsulted, hp], ?_⟩
+  simp [reqItem, hc]
+
+/-- **C12.8e** `locate_file` of a supplier WITHOUT a cache: `Symbolizer::get_file_path` does not
+    cache — every `get_file_path` request performs its own supplier call, exactly one per
+    provider, shared with nobody (the slot is private: `slots_distinct`) -/
+theorem locate_file_uncached_once_per_request {rc : RCfg} (hwf : rc.WF) (sched : List Nat)
+    (hfin : gallFin (toICfg rc) (rexec rc sched) = true)
+    {t j p fk m : Nat} (ht : t < rc.T) (hp : p < rc.P)
+    (hq : (rc.prog t)[j]? = some ⟨.file fk, m⟩) (hc : (rc.prov p).cached = false) :
+    callCount (privSlot rc t j p) (rexec rc sched).log = 1 :=
+  g_exactly_once_final (toICfg rc) sched hfin _ (priv_mem_allKeys hwf ht hp hq hc)
+
+/-- non-vacuity, and the contrast between the two: two tasks ask for the same file of the same
+    module. A supplier without a cache is called twice (two private slots), one with a cache once. -/
+example :
+    let prov (c : Bool) : Prov := ⟨fun _ => ⟨0, .notFound⟩, fun _ => false, fun _ _ => ⟨1, .ok⟩, c⟩
+    let rc (c : Bool) : RCfg := ⟨[⟨.path 0 0, some 0, some 0, some 0⟩], [prov c], [[⟨.file 1, 0⟩], [⟨.file 1, 0⟩]]⟩
+    let s (c : Bool) := rexec (rc c) [0, 1, 0, 1, 0, 1]
+    gallFin (toICfg (rc false)) (s false) = true ∧ gallFin (toICfg (rc true)) (s true) = true ∧
+    callCount (privSlot (rc false) 0 0 0) (s false).log = 1 ∧
+    callCount (privSlot (rc false) 1 0 0) (s false).log = 1 ∧
+    callCount (fileSlot (rc true) 0 0 1) (s true).log = 1 ∧
+    (s false).log.length = 6 ∧ (s true).log.length = 4 := by decide
+
+/-! ### 8.3 "every requester observes the same outcome, including a remembered failure" -/
+
+/-- **C12.8f** whatever a request observes at provider `p` for a module is the outcome that
+    provider's supplier gave for the module's key (symbols), resp. for (key, kind) (cached files) -/
+theorem requester_observes_supplier_outcome (rc : RCfg) (sched : List Nat) (t p k : Nat) (r : Res)
+    (hk : k < rc.M) (hm : Event.seen t (symSlot rc p k) r ∈ (rexec rc sched).log) :
+    r = ((rc.prov p).sym k).res := by
+  have := g_remembered_outcome (toICfg rc) sched t _ r hm
+  rw [this, toICfg_outcome, slotSup_sym rc hk]
+
+theorem requester_observes_file_outcome (rc : RCfg) (sched : List Nat) (t p k fk : Nat) (r : Res)
+    (hk : k < rc.M) (hf : fk < 3) (hm : Event.seen t (fileSlot rc p k fk) r ∈ (rexec rc sched).log) :
+    r = ((rc.prov p).file k fk).res := by
+  have := g_remembered_outcome (toICfg rc) sched t _ r hm
+  rw [this, toICfg_outcome, slotSup_file rc hk hf]
+
+/-! ### 8.4 several providers: consulted in order, first success wins, whatever the schedule -/
+
+theorem rexec_seen_final {rc : RCfg} (sched : List Nat) {t : Nat} (ht : t < rc.T)
+    (hfin : gisFin (rexec rc sched) t = true) :
+    seenBy t (rexec rc sched).log =
+      (compS (toICfg rc) 0 (expandFrom rc t 0 (rc.prog t))).map (expected (compile (toICfg rc))) := by
+  have := g_results_final (toICfg rc) sched t hfin
+  rw [toICfg_prog rc ht] at this
+  exact this
+
+/-- **C12.8g** the answers a finished task got for its requests are those the providers' supplier
+    tables determine (`specOut`): `walk_frame` — the first provider, in the order they were added,
+    whose supplier finds symbols with usable CFI; `get_file_path` — the first whose supplier finds
+    the file; `fill_symbol` — `Ok` iff some provider finds symbols (the frame keeps the LAST such
+    provider's data, as the code's loop leaves it). Independent of the interleaving. -/
+theorem outcomes_final {rc : RCfg} (hwf : rc.WF) (sched : List Nat) {t : Nat} (ht : t < rc.T)
+    (hfin : gisFin (rexec rc sched) t = true) :
+    outcomes rc t (rexec rc sched).log = (rc.prog t).map (specOut rc) := by
+  unfold outcomes
+  rw [rexec_seen_final sched ht hfin]
+  exact outcomesFrom_static hwf ht 0 (rc.prog t) (by intro i _; simp)
+
+theorem outcomes_schedule_free {rc : RCfg} (hwf : rc.WF) (sched₁ sched₂ : List Nat) {t : Nat}
+    (ht : t < rc.T) (h₁ : gisFin (rexec rc sched₁) t = true) (h₂ : gisFin (rexec rc sched₂) t = true) :
+    outcomes rc t (rexec rc sched₁).log = outcomes rc t (rexec rc sched₂).log := by
+  rw [outcomes_final hwf sched₁ ht h₁, outcomes_final hwf sched₂ ht h₂]
+
+/-- **C12.8h** the cache slots a finished task has looked up, in order: request by request, the
+    providers `specConsulted` names, in provider order — every provider for `fill_symbol` and
+    `get_file_path`; for `walk_frame` the providers up to AND INCLUDING the first that succeeds,
+    no later one. -/
+theorem consulted_in_provider_order {rc : RCfg} (hwf : rc.WF) (sched : List Nat) {t : Nat}
+    (ht : t < rc.T) (hfin : gisFin (rexec rc sched) t = true) :
+    (seenBy t (rexec rc sched).log).map Prod.fst =
+      ((rc.prog t).zipIdx 0).flatMap fun x =>
+        (specConsulted rc x.1).map fun p => (reqItem rc t x.2 x.1 p).slot := by
+  rw [rexec_seen_final sched ht hfin, List.map_map]
+  have : (Prod.fst ∘ expected (compile (toICfg rc))) = id := by funext k; rfl
+  rw [this, List.map_id]
+  exact compS_expandFrom hwf ht 0 (rc.prog t) (by intro i _; simp)
+
+/-- what `specConsulted` says for a walk, spelled out -/
+theorem walk_consults_up_to_first_success (rc : RCfg) (m : Nat) :
+    specConsulted rc ⟨.walk, m⟩ =
+      match (List.range rc.P).find? fun p =>
+          ((rc.prov p).sym (rc.key m)).res == .ok && (rc.prov p).cfi (rc.key m) with
+      | some p => List.range (p + 1)
+      | none => List.range rc.P := rfl
+
+/-- non-vacuity: two providers; provider 0 finds symbols WITHOUT CFI for module 0 and nothing for
+    module 1, provider 1 finds symbols with CFI for both. Whatever the interleaving: the walk of
+    module 0 is answered by provider 1, fill_symbol is `Ok` with provider 1's data, the file
+    comes from provider 0; each supplier is asked once per module although two tasks ask. -/
+example :
+    let p0 : Prov := ⟨fun k => ⟨1, if k = 0 then .ok else .notFound⟩, fun _ => false, fun _ _ => ⟨0, .ok⟩, false⟩
+    let p1 : Prov := ⟨fun _ => ⟨2, .ok⟩, fun _ => true, fun _ _ => ⟨1, .ok⟩, false⟩
+    let rc : RCfg := ⟨[⟨.path 0 0, some 0, some 0, some 0⟩, ⟨.path 0 1, some 1, some 1, some 1⟩], [p0, p1],
+      [[⟨.walk, 0⟩, ⟨.fill, 1⟩], [⟨.fill, 0⟩, ⟨.file 1, 1⟩, ⟨.walk, 1⟩]]⟩
+    let s₁ := rexec rc [0, 1, 0, 1, 0, 1, 0, 1, 0, 1, 0, 1, 0, 1, 0, 1, 0, 1]
+    let s₂ := rexec rc [1, 1, 1, 1, 1, 1, 1, 1, 1, 1, 1, 1, 0, 0, 0, 0, 0, 0, 0, 0]
+    gallFin (toICfg rc) s₁ = true ∧ gallFin (toICfg rc) s₂ = true ∧
+    outcomes rc 0 s₁.log = [.walkOk 1, .fillOk 1] ∧ outcomes rc 0 s₂.log = [.walkOk 1, .fillOk 1] ∧
+    outcomes rc 1 s₁.log = [.fillOk 1, .fileOk 0, .walkOk 1] ∧
+    callCount (symSlot rc 0 0) s₁.log = 1 ∧ callCount (symSlot rc 1 0) s₁.log = 1 ∧
+    callCount (symSlot rc 0 1) s₂.log = 1 ∧ callCount (symSlot rc 1 1) s₂.log = 1 := by decide
+
+/-- …and with CFI at provider 0 the walk stops there: provider 1's supplier is never asked -/
+example :
+    let p0 : Prov := ⟨fun _ => ⟨1, .ok⟩, fun _ => true, fun _ _ => ⟨0, .ok⟩, false⟩
+    let p1 : Prov := ⟨fun _ => ⟨2, .ok⟩, fun _ => true, fun _ _ => ⟨1, .ok⟩, false⟩
+    let rc : RCfg := ⟨[⟨.path 0 0, some 0, some 0, some 0⟩], [p0, p1], [[⟨.walk, 0⟩], [⟨.walk, 0⟩]]⟩
+    let s := rexec rc [0, 1, 0, 1, 0, 1]
+    gallFin (toICfg rc) s = true ∧ outcomes rc 0 s.log = [.walkOk 0] ∧ outcomes rc 1 s.log = [.walkOk 0] ∧
+    callCount (symSlot rc 0 0) s.log = 1 ∧ callCount (symSlot rc 1 0) s.log = 0 := by decide
+
 end MdModel.Once
